@@ -2,24 +2,33 @@
 # usage: tools/try_mutation.sh <mutation dir with patch.diff demo.py> <prop> [<prop> ...]
 # 1. confirms in a FRESH scratch worktree of /repo's current HEAD: the 135 tests pass with the patch,
 #    demo.py fails with it and passes without it
-# 2. applies the patch to /repo, runs the quick checks of the given properties, undoes it
+# 2. runs the quick checks of the given properties against the patched worktree (FORMULAE_REPO / PYTHONPATH
+#    point the shards at it, so /repo itself and any background run using it are left alone)
+#    INPLACE=1 applies the patch to /repo instead (git -C /repo apply ... checkout), the way the brief describes
 set -u
 MD=$(readlink -f "$1"); shift 1
 WT=/tmp/wt/_verify_$$
 git -C /repo worktree add -q --detach $WT HEAD || exit 3
 cd $WT
 if ! git apply "$MD/patch.diff" 2>/dev/null; then echo "APPLY-FAILED on current HEAD"; cd /; git -C /repo worktree remove --force $WT; exit 3; fi
-T=$(PYTHONPATH=$WT /venv/bin/python -m pytest -q -p no:cacheprovider --deselect tests/test_poly.py::test_basic --deselect tests/test_poly.py::test_degree 2>&1 | tail -1)
-(cd /tmp && PYTHONPATH=$WT timeout 300 /venv/bin/python "$MD/demo.py" >/dev/null 2>&1); D1=$?
+git diff > /tmp/wt/_patch_$$.diff
 git checkout -q -- .
 (cd /tmp && PYTHONPATH=$WT timeout 300 /venv/bin/python "$MD/demo.py" >/dev/null 2>&1); D0=$?
-cd /; git -C /repo worktree remove --force $WT
+git apply /tmp/wt/_patch_$$.diff
+T=$(PYTHONPATH=$WT /venv/bin/python -m pytest -q -p no:cacheprovider --deselect tests/test_poly.py::test_basic --deselect tests/test_poly.py::test_degree 2>&1 | tail -1)
+(cd /tmp && PYTHONPATH=$WT timeout 300 /venv/bin/python "$MD/demo.py" >/dev/null 2>&1); D1=$?
 echo "tests-with-patch: $T | demo-with-patch exit=$D1 | demo-without exit=$D0"
 cd /verif
-git -C /repo apply "$MD/patch.diff" || { echo "APPLY-FAILED in /repo"; exit 3; }
+if [ "${INPLACE:-0}" = "1" ]; then
+  git -C /repo apply "$MD/patch.diff" || { echo "APPLY-FAILED in /repo"; exit 3; }
+  RUN=""
+else
+  RUN="env FORMULAE_REPO=$WT PYTHONPATH=$WT"
+fi
 for P in "$@"; do
-  OUT=$(./check $P --tier ${TIER:-quick} 2>&1); RC=$?
+  OUT=$($RUN ./check $P --tier ${TIER:-quick} 2>&1); RC=$?
   echo "check $P -> exit $RC : $(echo "$OUT" | grep -c '^VIOLATION') violation classes; first: $(echo "$OUT" | grep -A1 '^VIOLATION' | head -2 | tail -1 | cut -c1-220)"
 done
-git -C /repo checkout -- .
+[ "${INPLACE:-0}" = "1" ] && git -C /repo checkout -- .
+cd /; git -C /repo worktree remove --force $WT; rm -f /tmp/wt/_patch_$$.diff
 git -C /repo status --short | head -3
